@@ -1,4 +1,4 @@
-"""D45 (C02): the xarray backend returns WRONG SAMPLES, silently, when the dataset is opened with dask chunks.
+"""D51 (C02): the xarray backend returns WRONG SAMPLES, silently, when the dataset is opened with dask chunks.
 
     ds = xr.open_dataset(path, engine=SeismicZfpBackendEntrypoint, chunks={...});  ds.data.values
 
@@ -26,7 +26,7 @@ try:
     for bpv, bs, shape, chunks in [(8, (8, 8, 64), (40, 40, 200), {'il': 8, 'xl': 8, 'z': 64}),
                                    (4, (4, 4, -1), (24, 28, 300), {'il': 4, 'xl': 4, 'z': 300}),
                                    (2, (64, 64, 4), (130, 70, 20), {'il': 64, 'xl': 64, 'z': 4})]:
-        p = os.path.join(d, f'd45_{bs[0]}.sgz')
+        p = os.path.join(d, f'd51_{bs[0]}.sgz')
         write_numpy_sgz(p, rnd_cube(rng, shape), bpv=bpv, blockshape=bs)
         with SgzReader(p) as r:
             V = r.read_volume()
@@ -49,5 +49,5 @@ try:
                 bad += 1
 finally:
     shutil.rmtree(d, ignore_errors=True)
-print('D45:', 'DEFECT PRESENT' if bad else 'ok')
+print('D51:', 'DEFECT PRESENT' if bad else 'ok')
 sys.exit(1 if bad else 0)
